@@ -196,6 +196,7 @@ func main() {
 	exit := 0
 	knownSeen := map[string]int{}
 	var unknown []sim.ViolationRec
+	var notRepro []string
 	for _, v := range agg.Violations {
 		// confirm in a fresh process: same violation, same event-log hash
 		res, err := replayOnce(*bin, v.Replay)
@@ -203,7 +204,10 @@ func main() {
 			infra("replay of %s failed to run: %v", v.Replay, err)
 		}
 		if res.Violation == nil || res.Violation.Invariant != v.Violation.Invariant || res.Violation.Signature != v.Violation.Signature || res.LogHash != v.LogHash {
-			infra("replay of %s does not reproduce exactly (got %+v hash %s want %+v hash %s): harness determinism defect", v.Replay, res.Violation, res.LogHash, v.Violation, v.LogHash)
+			// never reported: a violation whose replay file does not reproduce it exactly in a fresh process
+			// (the code under test behaves nondeterministically there, or the harness does)
+			notRepro = append(notRepro, fmt.Sprintf("%s (got %+v hash %.12s, want %s/%s hash %.12s)", v.Replay, res.Violation, res.LogHash, v.Violation.Invariant, v.Violation.Signature, v.LogHash))
+			continue
 		}
 		if f := isKnown(v.Violation); f != nil {
 			knownSeen[f.Invariant+"|"+f.Signature]++
@@ -216,6 +220,12 @@ func main() {
 		if f.Status == "known" && f.Property == *prop {
 			fmt.Printf("KNOWN-FINDING: property=%s %s [%s/%s] (reproduced %d times in this run)\n", f.Property, f.What, f.Invariant, f.Signature, knownSeen[f.Invariant+"|"+f.Signature])
 		}
+	}
+	if len(notRepro) > 0 && len(unknown) == 0 {
+		infra("%d violation(s) found but none reproduces exactly from its replay file, e.g. %s: nothing is reported", len(notRepro), notRepro[0])
+	}
+	for _, nr := range notRepro {
+		fmt.Printf("NOT-REPORTED (replay does not reproduce exactly): %s\n", nr)
 	}
 	for _, v := range unknown {
 		fmt.Printf("VIOLATION property=%s replay=%s\n", *prop, v.Replay)
